@@ -4,21 +4,31 @@
 #![allow(static_mut_refs)]
 use crate::Error;
 
-pub static mut B64_BYTES: [[u8; 84]; 2] = [[0; 84]; 2]; // what was handed to the encoder (token k)
-pub static mut B64_LEN: [usize; 2] = [0; 2];
-pub static mut B64_N: usize = 0;
-pub static mut ATT_ERR: bool = false;
-pub static mut ATT_BYTES: [u8; 90] = [0; 90];
-pub static mut ATT_LEN: usize = 0;
-pub static mut DECODES: usize = 0;
+// All model state lives in ONE static whose initial bytes are unique (magic field). Kani 0.68 resolves a constant
+// allocation and the initialiser of an upstream crate's static to the same symbol when their bytes are identical: with
+// `pub static mut ATT_LEN: usize = 0` in this crate, liballoc's `Cap::ZERO` (8 zero bytes) was compiled to a read of
+// ATT_LEN, so that `ATT_LEN = 36` gave every `Vec::new()` of the harness capacity 36 (observed: RawVecInner::new_in reads
+// `*(&ATT_LEN as *const Cap)`). A unique initialiser cannot be conflated with any constant.
+pub struct Model {
+    pub magic: u64,
+    pub b64_bytes: [[u8; 84]; 2], // what was handed to the encoder (token k)
+    pub b64_len: [usize; 2],
+    pub b64_n: usize,
+    pub att_err: bool,
+    pub att_bytes: [u8; 90],
+    pub att_len: usize,
+    pub decodes: usize,
+}
+pub static mut M: Model = Model { magic: 0x4b45_5354_5245_4c31, b64_bytes: [[0; 84]; 2], b64_len: [0; 2], b64_n: 0, att_err: false,
+                                  att_bytes: [0; 90], att_len: 0, decodes: 0 };
 
 pub fn encode<'t>(b64: &'t mut [u8], bin: &[u8]) -> Result<&'t [u8], Error> {
     unsafe {
-        assert!(B64_N < 2 && bin.len() <= 84, "[LIMIT] harness bound: two base64 encodings of <= 84 bytes");
-        let k = B64_N;
-        B64_BYTES[k][..bin.len()].copy_from_slice(bin);
-        B64_LEN[k] = bin.len();
-        B64_N += 1;
+        assert!(M.b64_n < 2 && bin.len() <= 84, "[LIMIT] harness bound: two base64 encodings of <= 84 bytes");
+        let k = M.b64_n;
+        M.b64_bytes[k][..bin.len()].copy_from_slice(bin);
+        M.b64_len[k] = bin.len();
+        M.b64_n += 1;
         // token: 'T', index, then 'A' up to the real base64 length
         let n = (bin.len() + 2) / 3 * 4;
         if b64.len() < n || n < 2 { return Err(Error::Overflow); }
@@ -31,20 +41,21 @@ pub fn encode<'t>(b64: &'t mut [u8], bin: &[u8]) -> Result<&'t [u8], Error> {
 
 pub fn decode<'t>(bin: &'t mut [u8], e: &[u8]) -> Result<&'t [u8], Error> {
     unsafe {
-        DECODES += 1;
+        M.decodes += 1;
         if e.len() >= 2 && e[0] == b'T' && (e[1] == b'0' || e[1] == b'1') {
             let k = (e[1] - b'0') as usize;
-            if k < B64_N && e.len() == (B64_LEN[k] + 2) / 3 * 4 {
-                let n = B64_LEN[k];
+            if k < M.b64_n && e.len() == (M.b64_len[k] + 2) / 3 * 4 {
+                let n = M.b64_len[k];
                 if n > bin.len() { return Err(Error::Overflow); }
-                bin[..n].copy_from_slice(&B64_BYTES[k][..n]);
+                bin[..n].copy_from_slice(&M.b64_bytes[k][..n]);
                 return Ok(&bin[..n]);
             }
         }
-        if ATT_ERR { return Err(Error::InvalidInput); }
-        let n = ATT_LEN;
+        if M.att_err { return Err(Error::InvalidInput); }
+        let n = M.att_len;
         if n > bin.len() || n > 90 { return Err(Error::Overflow); }
-        bin[..n].copy_from_slice(&ATT_BYTES[..n]);
+        bin[..n].copy_from_slice(&M.att_bytes[..n]);
         Ok(&bin[..n])
     }
 }
+
